@@ -108,11 +108,14 @@ pub struct C11Knobs {
 pub fn generate(rng: &mut Rng, thorough: bool) -> (C11Scenario, String) {
     let u = Universe::generate(rng);
     let gk = GenKnobs::generate(rng);
-    let size_class = rng.below(100);
-    let n_files = if size_class < 80 {
+    let size_class = rng.below(1000);
+    let huge = size_class >= 997;
+    let n_files = if size_class < 800 {
         rng.range(1, 6)
-    } else if size_class < 96 {
+    } else if size_class < 960 {
         rng.range(7, 12)
+    } else if huge {
+        rng.range(258, 300) // beyond the 256-entry thresholds
     } else if thorough && rng.pct(25) {
         rng.range(65, 90) // beyond the 64-entry thresholds
     } else if thorough {
@@ -125,7 +128,7 @@ pub fn generate(rng: &mut Rng, thorough: bool) -> (C11Scenario, String) {
         n_files,
         p_dup_key: *rng.pick(&[0u32, 10, 35]),
         p_malformed: *rng.pick(&[0u32, 8, 25]),
-        n_execs: rng.range(4, 8),
+        n_execs: if huge { rng.range(2, 3) } else { rng.range(4, 8) },
     };
     // files
     let mut paths: Vec<PathBuf> = Vec::new();
